@@ -7,32 +7,6 @@ import (
 	N "github.com/DataDog/datadog-traceroute/zzvnet"
 )
 
-// vTemplate4 builds an ICMP error answering probe pr the way a router does: fresh outer header from a
-// symbolic responder, ICMP type/code chosen by the caller, then the quoted probe (quoteLen bytes of it) with the
-// fields a device may rewrite (TTL, header checksum, TOS) replaced by fresh symbols. Outer options: optLen bytes of NOPs+EOL.
-func vTemplate4(pr []byte, icmpType, icmpCode uint8, quoteLen int, extra int) []byte {
-	resp := V.Bytes("responder", 4)
-	free := V.Bytes("outerfree", 8) // tos, id(2), flags/frag(2), ttl, checksum(2)
-	total := 20 + 8 + quoteLen + extra
-	p := make([]byte, 0, total)
-	p = append(p, 0x45, free[0], byte(total>>8), byte(total), free[1], free[2], 0, 0, free[5], 1, free[6], free[7])
-	p = append(p, resp...)
-	p = append(p, pr[12:16]...) // to the prober
-	icmpFree := V.Bytes("icmpfree", 6)
-	p = append(p, icmpType, icmpCode, icmpFree[0], icmpFree[1], icmpFree[2], icmpFree[3], icmpFree[4], icmpFree[5])
-	q := append([]byte(nil), pr[:quoteLen]...)
-	qf := V.Bytes("quotedfree", 4)
-	q[1] = qf[0]  // TOS may be rewritten
-	q[8] = qf[1]  // TTL is 0 or 1 when it expires
-	q[10] = qf[2] // header checksum follows
-	q[11] = qf[3]
-	p = append(p, q...)
-	if extra > 0 {
-		p = append(p, V.Bytes("extension", extra)...)
-	}
-	return p
-}
-
 // Verif_C02_udp4: every time-exceeded / destination-unreachable answer to the probe with TTL t is reported as hop t.
 func Verif_C02_udp4() {
 	d, cfg, sink, src, min, m := vSetup(false)
@@ -44,19 +18,22 @@ func Verif_C02_udp4() {
 	var P []byte
 	switch form {
 	case 0: // time exceeded, 28-byte quote
-		P = vTemplate4(pr, 11, 0, 28, 0)
+		P = N.ICMPError4(pr, 11, 0, 28, 0, 0)
 	case 1: // time exceeded, full quote
-		P = vTemplate4(pr, 11, 0, len(pr), 0)
+		P = N.ICMPError4(pr, 11, 0, len(pr), 0, 0)
 	case 2: // destination unreachable, any code
-		P = vTemplate4(pr, 3, V.U8("code"), 28, 0)
+		P = N.ICMPError4(pr, 3, V.U8("code"), 28, 0, 0)
 	case 3: // full quote padded to 128 bytes + 8-byte RFC 4884 extension
-		P = vTemplate4(pr, 11, 0, len(pr), 128-len(pr)+8)
+		P = N.ICMPError4(pr, 11, 0, len(pr), 128-len(pr)+8, 0)
+	case 4: // outer header with options
+		P = N.ICMPError4(pr, 11, 0, 28, 0, 1)
 	}
 	if cfg.LoosenICMPSrc {
 		// NAT rewrote the quoted source address and port
 		nat := V.Bytes("nat", 6)
-		copy(P[28+12:28+16], nat[0:4])
-		copy(P[28+20:28+22], nat[4:6])
+		o := int(P[0]&0xf)*4 + 8
+		copy(P[o+12:o+16], nat[0:4])
+		copy(P[o+20:o+22], nat[4:6])
 	}
 	src.Next = P
 	resp, err := d.ReceiveProbe(100 * time.Millisecond)
@@ -67,4 +44,38 @@ func Verif_C02_udp4() {
 	V.Reach("accepted")
 	V.Assert(resp.TTL == t, "C02/ttl")
 	V.Assert(resp.IP == N.Src4(P), "C02/responder")
+}
+
+// Verif_C02_udp6: ICMPv6 time-exceeded / destination-unreachable answers over IPv6.
+func Verif_C02_udp6() {
+	d, cfg, sink, src, min, m := vSetup(true)
+	t := V.U8("t")
+	V.Assume(t >= min)
+	V.Assume(t <= m)
+	pr := sink.Pkts[V.Concretize(int(t-min))]
+	var P []byte
+	switch V.ParamInt("form", 0) {
+	case 0: // hop limit exceeded, 48-byte quote (header + UDP header)
+		P = N.ICMPError6(pr, 3, 0, 48)
+	case 1: // full quote
+		P = N.ICMPError6(pr, 3, 0, len(pr))
+	case 2: // destination unreachable, any code
+		P = N.ICMPError6(pr, 1, V.U8("code"), 48)
+	}
+	if cfg.LoosenICMPSrc {
+		nat := V.Bytes("nat", 18)
+		copy(P[48+8:48+24], nat[0:16])
+		copy(P[48+40:48+42], nat[16:18])
+		V.Assume(!N.Src6(P[48:]).Is4In6())
+	}
+	V.Assume(!N.Src6(P).Is4In6())
+	src.Next = P
+	resp, err := d.ReceiveProbe(100 * time.Millisecond)
+	V.Assert(err == nil, "C02/accepted")
+	if err != nil {
+		return
+	}
+	V.Reach("accepted")
+	V.Assert(resp.TTL == t, "C02/ttl")
+	V.Assert(resp.IP == N.Src6(P), "C02/responder")
 }
